@@ -77,6 +77,15 @@ def drive(tmp, seed, count, maxn, race=False, policy=None, scenarios=None, tag="
     crash = None
     if "fatal error: concurrent map" in text:
         crash = "fatal error: concurrent map access in the real walker: " + "; ".join(re.findall(r"fatal error: [^\n]+", text)[:2])
+    if not crash:
+        # an unrecovered panic / fatal error in a goroutine of the real walker or pool kills the driver process: a crash of the
+        # code under test iff the first non-runtime frame of the crashing goroutine is in /repo/internal
+        m = re.search(r"^(panic: [^\n]+|fatal error: [^\n]+)\n(?:.*\n)*?goroutine \d+ [^\n]*\n((?:.+\n)+)", text, re.M)
+        if m:
+            frames = re.findall(r"^\t(/\S+:\d+)", m.group(2), re.M)
+            frames = [f for f in frames if "/src/runtime/" not in f and "/go/src/" not in f and "/src/internal/" not in f]
+            if frames and frames[0].startswith("/repo/internal/"):
+                crash = f"{m.group(1)} at {frames[:3]} (the process died)"
     races = []
     if race and "WARNING: DATA RACE" in text:
         for blk in text.split("WARNING: DATA RACE")[1:]:
@@ -90,7 +99,7 @@ def drive(tmp, seed, count, maxn, race=False, policy=None, scenarios=None, tag="
                 races.append(sorted(set(repo_frames))[:4])
     results = None
     if os.path.exists(out):
-        results = json.load(open(out))
+        results = [x for x in json.load(open(out)) if x["outcome"] != "aborted"]   # ended by the test framework on a race report (reported above)
         for x in results:
             x["schedule"] = x.get("schedule") or []
             x["ev"] = x.get("ev") or []
@@ -164,7 +173,9 @@ def run(chk, tmp, prop):
         else:
             results, crash, races, text = drive(tmp, seed, count, maxn, race=race, policy=policy, tag=tag)
         if crash and prop == "C04":
-            chk.violation("walker:fatal-concurrent-map", crash, {"batch": tag, "seed": seed, "output": text[-4000:]})
+            chk.violation("walker:fatal-concurrent-map" if "concurrent map" in crash else "walker:crash:" + crash.split(" at ")[0][:60], crash, {"batch": tag, "seed": seed, "output": text[-4000:]})
+        elif crash:
+            others["C04:crash"] += 1
         for fr in races:
             if prop == "C04":
                 chk.violation("walker:data-race:" + "|".join(os.path.basename(f) for f in fr), "data race in the real walker/pool reported by the Go race detector: " + ", ".join(fr),
